@@ -152,6 +152,12 @@ def run_case(ctx, case):
             sig.write_file(job.fn("analysis/workspace/inner/result.txt"), "inner-result")
         if k % 3 == 0:
             sig.write_file(job.fn("nested_sp/signac_statepoint.json"), '{"inner1": %d}' % k)
+        if k % 3 == 1:
+            # names from beyond Latin-1, names that sort before '/', a name with a space and a leading dot
+            sig.write_file(job.fn("Δt.txt"), "delta")
+            sig.write_file(job.fn("結果/値.csv"), "1,2")
+            sig.write_file(job.fn("!first #1.log"), "bang")
+            sig.write_file(job.fn(".hidden/x"), "h")
     want = project_content(src.path)
     base = ctx.scratch("exp")
     tmp = os.path.join(base, "tmp")
